@@ -7,7 +7,9 @@
 (* datagrams, advances the clock and makes writes fail.  A process is      *)
 (* always parked at a *gate* - a call into an injected interface (agent    *)
 (* method, wrapped agent handler entry/exit, conn.Write/Read/Close,        *)
-(* clock.Now, collector.Close, user/fallback handler entry) - and one      *)
+(* clock.Now, collector.Close, user/fallback handler entry; plus the entry  *)
+(* of c.start, the client-table registration, through the verif hook) -    *)
+(* and one                                                                 *)
 (* action runs it from that gate to the next one, i.e. through at most one *)
 (* critical section of client.go / agent.go.  The real client is replayed  *)
 (* gate by gate against behaviours of this model.                          *)
@@ -42,6 +44,7 @@ CONSTANTS Starts,        \* start instances (one caller process each)
           Strict,        \* TRUE: the reader does not process a response while another goroutine is between the
                          \* client-table delete and the agent re-registration of the same id (excludes K2/K3)
           AllowClose,    \* the closer process exists
+          AllowDo,       \* a caller may be Client.Do: after Start returned nil it waits for its handler to finish
           None
 
 RD == "RD"
@@ -123,17 +126,26 @@ StartBegin(s) ==
   /\ UNCHANGED << closed, closeChan, connCloses, ct, at, aclosed, alock, obj, clock, idleLeft, rto, rtoBudget, inbox, fails, resps, junk,
                   wsucc, wlog, hcalls, hlast, fbcalls, ended >>
 
-\* S1: clock read, acquire a pooled object (any free one), snapshot, c.start registration -> agent.Start gate
-StartRegister(s) ==
+\* S1: clock read, acquire a pooled object (any free one), snapshot (RTO included) -> c.start gate
+StartNow(s) ==
   /\ pc[s] = "S_now"
   /\ \E o \in { x \in Objs : obj[x].free } :
-       LET id == IdOf[s] IN
-       /\ obj' = [obj EXCEPT ![o] = [id |-> id, attempt |-> 0, calls |-> 0, owner |-> s, free |-> FALSE, reg |-> clock, prev |-> clock, rto |-> rto]]
-       /\ IF closed \/ ct[id] # None
-          THEN /\ Goto(s, "done") /\ ret' = [ret EXCEPT ![s] = "err"] /\ UNCHANGED << ct, loc >>
-          ELSE /\ ct' = [ct EXCEPT ![id] = o]
-               /\ Goto(s, "S_agentStart") /\ SetLoc(s, [loc[s] EXCEPT !.o = o, !.now = clock]) /\ UNCHANGED ret
-  /\ UNCHANGED << closed, closeChan, connCloses, at, aclosed, alock, clock, idleLeft, rto, rtoBudget, inbox, fails, resps, junk,
+       /\ obj' = [obj EXCEPT ![o] = [id |-> IdOf[s], attempt |-> 0, calls |-> 0, owner |-> s, free |-> FALSE, reg |-> clock, prev |-> clock, rto |-> rto]]
+       /\ Goto(s, "S_cstart") /\ SetLoc(s, [loc[s] EXCEPT !.o = o, !.now = clock])
+  /\ UNCHANGED << closed, closeChan, connCloses, ct, at, aclosed, alock, clock, idleLeft, rto, rtoBudget, inbox, fails, resps, junk,
+                  wsucc, wlog, hcalls, hlast, ret, fbcalls, ended >>
+
+\* S1b: c.start - the critical section that enters the transaction into the client table (its own gate: the
+\* "client.start" hook) -> agent.Start gate.  A refused registration leaves the acquired object unused (it is not
+\* put back: the garbage collector gets it).
+StartRegister(s) ==
+  /\ pc[s] = "S_cstart"
+  /\ LET id == IdOf[s] IN
+     IF closed \/ ct[id] # None
+     THEN /\ Goto(s, "done") /\ ret' = [ret EXCEPT ![s] = "err"] /\ UNCHANGED ct
+     ELSE /\ ct' = [ct EXCEPT ![id] = loc[s].o]
+          /\ Goto(s, "S_agentStart") /\ UNCHANGED ret
+  /\ UNCHANGED << closed, closeChan, connCloses, at, aclosed, alock, obj, clock, idleLeft, rto, rtoBudget, loc, inbox, fails, resps, junk,
                   wsucc, wlog, hcalls, hlast, fbcalls, ended >>
 
 \* S2: agent.Start critical section -> conn.Write gate
@@ -157,7 +169,9 @@ StartWrite(s) ==
        /\ (Strict /\ ~ok) => Untouched(s)
        /\ LogWrite(IdOf[s], 0, loc[s].now, loc[s].now, obj[loc[s].o].rto, ok)
        /\ IF ok
-          THEN /\ Goto(s, "done") /\ ret' = [ret EXCEPT ![s] = "nil"] /\ UNCHANGED ct
+          THEN \* Start returns nil; a Do caller goes on to callbackWaitHandler.wait()
+               /\ \E d \in (IF AllowDo THEN BOOLEAN ELSE {FALSE}) : Goto(s, IF d THEN "D_wait" ELSE "done")
+               /\ ret' = [ret EXCEPT ![s] = "nil"] /\ UNCHANGED ct
           ELSE /\ ct' = [ct EXCEPT ![IdOf[s]] = None] /\ Goto(s, "S_agentStop") /\ UNCHANGED ret
   /\ UNCHANGED << closed, closeChan, connCloses, at, aclosed, alock, obj, clock, idleLeft, rto, rtoBudget, loc, inbox, resps, junk,
                   hcalls, hlast, fbcalls, ended >>
@@ -179,6 +193,14 @@ StartStopRet(s) ==
   /\ Goto(s, "done") /\ ret' = [ret EXCEPT ![s] = "err"]
   /\ UNCHANGED << closed, closeChan, connCloses, ct, at, aclosed, alock, obj, clock, idleLeft, rto, rtoBudget, loc, inbox, fails, resps, junk,
                   wsucc, wlog, hcalls, hlast, fbcalls, ended >>
+
+\* Client.Do: callbackWaitHandler.wait() returns once HandleEvent has run the caller's callback to its end
+\* (the wait handler's condition variable is signalled after the callback returned)
+DoReturn(s) ==
+  /\ pc[s] = "D_wait" /\ hcalls[s] >= 1
+  /\ Goto(s, "done")
+  /\ UNCHANGED << closed, closeChan, connCloses, ct, at, aclosed, alock, obj, clock, idleLeft, rto, rtoBudget, loc, inbox, fails, resps, junk,
+                  wsucc, wlog, hcalls, hlast, ret, fbcalls, ended >>
 
 ---------------------------------------------------------------------------
 (* handleAgentCallback, run by whichever goroutine the agent called the handler in *)
@@ -237,17 +259,24 @@ FailWith(p, o, kind) ==
        /\ Goto(p, "UH") /\ SetLoc(p, [loc[p] EXCEPT !.ev = Ev(kind, loc[p].id), !.s = obj[o].owner])
   ELSE /\ obj' = PutObj(o) /\ Goto(p, "CB_exit") /\ UNCHANGED loc
 
-\* R2: clock read, c.start re-registration (or its error path: c.delete + handle)
-RetxRegister(p) ==
+\* R2: clock read for the retransmission -> c.start gate
+RetxNow(p) ==
   /\ pc[p] = "R_now"
+  /\ Goto(p, "R_cstart") /\ SetLoc(p, [loc[p] EXCEPT !.now = clock])
+  /\ obj' = [obj EXCEPT ![loc[p].o].prev = obj[loc[p].o].reg, ![loc[p].o].reg = clock]
+  /\ UNCHANGED << closed, closeChan, connCloses, ct, at, aclosed, alock, clock, idleLeft, rto, rtoBudget, inbox, fails, resps, junk,
+                  wsucc, wlog, hcalls, hlast, ret, fbcalls, ended >>
+
+\* R2b: c.start re-registration (or its error path: c.delete + handle)
+RetxRegister(p) ==
+  /\ pc[p] = "R_cstart"
   /\ LET o == loc[p].o
          id == loc[p].id
      IN IF closed \/ ct[id] # None
         THEN /\ ct' = [ct EXCEPT ![id] = None]          \* c.delete(id): whatever is registered under id
              /\ FailWith(p, o, "starterr")
         ELSE /\ ct' = [ct EXCEPT ![id] = o]
-             /\ Goto(p, "R_agentStart") /\ SetLoc(p, [loc[p] EXCEPT !.now = clock])
-             /\ obj' = [obj EXCEPT ![o].prev = obj[o].reg, ![o].reg = clock]
+             /\ Goto(p, "R_agentStart") /\ UNCHANGED << obj, loc >>
   /\ UNCHANGED << closed, closeChan, connCloses, at, aclosed, alock, clock, idleLeft, rto, rtoBudget, inbox, fails, resps, junk,
                   wsucc, wlog, hcalls, hlast, ret, fbcalls, ended >>
 
@@ -323,7 +352,7 @@ ReaderRead ==
   /\ UNCHANGED << closed, closeChan, connCloses, ct, at, aclosed, alock, obj, clock, idleLeft, rto, rtoBudget, fails, resps, junk,
                   wsucc, wlog, hcalls, hlast, ret, fbcalls, ended >>
 
-InRetxWindow(i) == \E p \in Procs : pc[p] \in {"R_now", "R_agentStart"} /\ loc[p].id = i
+InRetxWindow(i) == \E p \in Procs : pc[p] \in {"R_now", "R_cstart", "R_agentStart"} /\ loc[p].id = i
 
 ReaderProcess ==
   /\ pc[RD] = "RD_process" /\ alock = None
@@ -434,11 +463,11 @@ Deliver ==
   /\ UNCHANGED << closed, closeChan, connCloses, ct, at, aclosed, alock, obj, clock, idleLeft, rto, rtoBudget, pc, loc, fails,
                   wsucc, wlog, hcalls, hlast, ret, fbcalls, ended >>
 
-CbStep(p) == CbLookup(p) \/ UserHandler(p) \/ Fallback(p) \/ RetxRegister(p) \/ RetxAgent(p) \/ RetxWrite(p)
+CbStep(p) == CbLookup(p) \/ UserHandler(p) \/ Fallback(p) \/ RetxNow(p) \/ RetxRegister(p) \/ RetxAgent(p) \/ RetxWrite(p)
              \/ RetxStop(p) \/ CbExit(p)
 
 Next ==
-  \/ \E s \in Starts : StartBegin(s) \/ StartRegister(s) \/ StartAgent(s) \/ StartWrite(s) \/ StartStop(s) \/ StartStopRet(s)
+  \/ \E s \in Starts : StartBegin(s) \/ StartNow(s) \/ StartRegister(s) \/ StartAgent(s) \/ StartWrite(s) \/ StartStop(s) \/ StartStopRet(s) \/ DoReturn(s)
   \/ \E p \in Procs : CbStep(p)
   \/ ReaderRead \/ ReaderProcess \/ CollectorRun \/ CollectorIdleRun
   \/ CloseBegin \/ CloseCollector \/ CloseAgent \/ CloseConnAndChan \/ CloseWait
@@ -453,7 +482,10 @@ Spec == Init /\ [][Next]_vars
 AtMostOnce == \A s \in Starts : hcalls[s] <= 1
 StartErrNoCall == \A s \in Starts : ret[s] = "err" => hcalls[s] = 0
 CloseReturned == pc[X] = "X_done"
-ExactlyOnceAfterClose == CloseReturned => \A s \in Starts : (pc[s] = "done" /\ ret[s] = "nil") => hcalls[s] = 1
+ExactlyOnceAfterClose == CloseReturned => \A s \in Starts : (pc[s] \in {"done", "D_wait"} /\ ret[s] = "nil") => hcalls[s] = 1
+\* Do returns only after its handler ran, and is never left waiting once the handler has run and Close returned
+DoWaits == [][ \A s \in Starts : (pc[s] = "D_wait" /\ pc'[s] = "done") => hcalls[s] >= 1 ]_vars
+DoNotStuck == CloseReturned => \A s \in Starts : pc[s] = "D_wait" => hcalls[s] >= 1
 \* the handler of a start instance sees an event for its own transaction id
 RoutedByID == \A s \in Starts : hlast[s] # None => hlast[s].id = IdOf[s]
 
